@@ -126,14 +126,14 @@ def kindJ : TokKind → Json
 def valOf (j : Json) : TokVal :=
   if jhas j "text" then .text (cpsOf (jget j "text"))
   else if jhas j "int" then .int (jstr j "int").toNat!
-  else if jhas j "flt" then .flt (cpsOf (jget j "flt"))
+  else if jhas j "flt" then .flt (cpsOf (jget j "flt")) (UInt64.ofNat ((jstr j "bits").toNat?.getD 0))
   else .none
 
 def valJ : TokVal → Json
   | .none => .null
   | .text s => jo [("text", cpsJ s)]
   | .int n => jo [("int", js (toString n))]
-  | .flt s => jo [("flt", cpsJ s)]
+  | .flt s b => jo [("flt", cpsJ s), ("bits", js (toString b.toNat))]
 
 def tokOf (j : Json) : Option Token :=
   match kindOf j with
